@@ -143,7 +143,7 @@ def extra(tier, rng, workdir):
     rcases = []
     for i in range(12 if tier == "quick" else 200):
         r = rng.fork(52000 + i)
-        ops = [o for o in c09.gen_case(r, r.range(8, 24), 2050 if i % 3 else 3050) if o[0] in ("add", "addn", "revert", "save", "load")]
+        ops = [o for o in c09.gen_case(r, r.range(8, 24), 2050 if i % 3 else 3050) if o[0] in ("add", "addn", "revert", "save", "load", "reload")]
         rcases.append({"cfg": {"rm_err": i % 2, "crash": 1}, "ops": ops})
     rres, rext = vlib.run_harness("blockrepo", rcases, workdir, tag="repocrash")
     rimages = 0
@@ -155,7 +155,34 @@ def extra(tier, rng, workdir):
                 failures.append({"suite": "repocrash", "checker": "crash_prefix", "step": i, "cfg": c["cfg"], "ops": c["ops"],
                                  "expected": None, "observed": img, "what": "repository: " + what + " after mutation %d" % i,
                                  "log": ex["log"][:i + 1][-6:]})
-    cov = {"histories": nhist, "crash_images": images, "repository_histories_K1000": len(rcases), "repository_crash_images": rimages, "distinct_images": len(distinct), "single_fault_runs": len(fcases),
+    # a save whose storage write is in flight while another goroutine reverts (ProcessBlock / shutdown save vs the
+    # headers handler's reorg): the repository must behave as "save, then revert" - also for a restart afterwards
+    race_cases, twin_cases = [], []
+    for tip, saved_at, t in ((2001, 1990, 1500), (2001, 0, 999), (2003, 2001, 1999), (2000, 1500, 1000), (1001, 1001, 998),
+                             (1005, 0, 1001), (2002, 2000, 2000), (3001, 2500, 1700))[:4 if tier == "quick" else 8]:
+        pre = []
+        if saved_at > 0:
+            pre += [["addn", 1, saved_at], ["save"], ["addn", saved_at + 1, tip - saved_at]]
+        else:
+            pre += [["addn", 1, tip]]
+        post = [["files"], ["lastheight"], ["lasthash"], ["hash", t], ["hash", t + 1], ["load"], ["files"], ["lastheight"],
+                ["lasthash"], ["addn", 5001, 3], ["save"], ["files"], ["load"], ["lastheight"], ["lasthash"]]
+        race_cases.append({"cfg": {"rm_err": 1}, "ops": pre + [["save_race_revert", t]] + post})
+        twin_cases.append({"cfg": {"rm_err": 1}, "ops": pre + [["save"], ["revert", t]] + post})
+    race_res, _ = vlib.run_harness("blockrepo", race_cases + twin_cases, workdir, tag="saverace")
+    n = len(race_cases)
+    reached = 0
+    for c, rr, tr in zip(race_cases, race_res[:n], race_res[n:]):
+        k = len(c["ops"]) - 15
+        reached += rr[k - 1][1] if len(rr[k - 1]) > 1 else 0
+        tail_r, tail_t = rr[k:], tr[k + 1:]
+        if tail_r != tail_t:
+            d = next(i for i, (a, b) in enumerate(zip(tail_r, tail_t)) if a != b)
+            failures.append({"suite": "saverace", "checker": "save_race", "step": k + d, "cfg": c["cfg"], "ops": c["ops"],
+                             "expected": tail_t[d], "observed": tail_r[d], "trace": rr,
+                             "what": "a revert that ran while a save's storage write was in flight left the store different from "
+                                     "'save, then revert' (op %s: %s instead of %s)" % (c["ops"][k + d], tail_r[d][:8], tail_t[d][:8])})
+    cov = {"save_race_scenarios": n, "save_race_pause_point_reached": reached, "histories": nhist, "crash_images": images, "repository_histories_K1000": len(rcases), "repository_crash_images": rimages, "distinct_images": len(distinct), "single_fault_runs": len(fcases),
            "faults_that_fired": hit,
            "samples_crash": [{"ops": cases[0]["ops"][:12], "log": ext[0]["log"][:8], "images": ext[0]["images"][:8]}]}
     return {"failures": failures, "evaluations": images + rimages + len(fcases), "coverage": cov}
@@ -167,6 +194,10 @@ def suites(tier, rng, replay):
 
 
 def keyfn(rec):
+    if rec.get("suite") == "saverace":
+        ops = rec.get("ops", [])
+        st = rec.get("step", 0)
+        return "saverace:%s" % (ops[st][0] if 0 <= st < len(ops) else "?")
     if rec.get("suite") in ("crash", "fault", "repocrash"):
         ops = rec.get("ops", [])
         return "%s:%s" % (rec.get("checker"), (rec.get("what") or "").split(" after mutation")[0])
